@@ -53,8 +53,12 @@ func init() {
 		return RunNestedRecovery(&ReplaySrc{Vals: vals}, mkC04(), keepLog)
 	})
 	replayers["C03"] = append(replayers["C03"], func(vals []int, keepLog bool) *sim.World {
+		solo := len(vals) > 0 && vals[0] == 1
 		if len(vals) > 0 {
 			vals = vals[1:] // the share draw
+		}
+		if solo {
+			return RunSilencedCommitted(&ReplaySrc{Vals: vals}, mkC03sig(), keepLog)
 		}
 		return RunSafety(&ReplaySrc{Vals: vals}, mkC03sig(), keepLog, shC03sig)
 	})
@@ -163,14 +167,20 @@ func TestC03(t *testing.T) {
 	// watch-only flag or withdraws its key in the middle of a height (a third of one more budget)
 	rapid.Check(t, func(t *rapid.T) {
 		src := &RapidSrc{T: t}
-		if src.Intn("flipshare", 3) != 0 {
+		gen := func(r sim.Src, keep bool) *sim.World { return RunSafety(r, mkC03sig(), keep, shC03sig) }
+		switch src.Intn("flipshare", 3) {
+		case 0:
+		case 1:
+			// the same situation by construction (driver B): a committed node is silenced, follows a view change, is re-enabled
+			gen = func(r sim.Src, keep bool) *sim.World { return RunSilencedCommitted(r, mkC03sig(), keep) }
+		default:
 			return
 		}
-		w := RunSafety(src, mkC03sig(), false, shC03sig)
+		w := gen(src, false)
 		fatal := e.Report(w, src.Rec, func() string {
-			return RunSafety(&ReplaySrc{Vals: src.Rec[1:]}, mkC03sig(), true, shC03sig).Render()
+			return gen(&ReplaySrc{Vals: src.Rec[1:]}, true).Render()
 		})
-		e.Case(FPInts(src.Rec), w.Stats["c03_commitment_repeated_identically"] > 0 && (w.Stats["watch_flag_set_mid_view"] > 0 || w.Stats["watch_flag_cleared_mid_view"] > 0), w.Stats, func() any { return sampleOf(w, src.Rec) })
+		e.Case(FPInts(src.Rec), (w.Stats["c03_commitment_repeated_identically"] > 0 && (w.Stats["watch_flag_set_mid_view"] > 0 || w.Stats["watch_flag_cleared_mid_view"] > 0)) || w.Stats["silenced_node_followed_view_change"] > 0, w.Stats, func() any { return sampleOf(w, src.Rec) })
 		if fatal != "" {
 			t.Fatalf("%s", fatal)
 		}
